@@ -7,7 +7,7 @@ for wt in sorted(glob.glob("/tmp/wt/C??")):
     pid = os.path.basename(wt)
     for md in sorted(glob.glob(wt + "/mutants/[0-9]")):
         n = os.path.basename(md)
-        sid = "%s-m%s" % (pid, n)
+        sid = "%s-%sm%s" % (pid, os.environ.get("ROUND", ""), n)
         if only and sid not in only and pid not in only:
             continue
         dst = "/verif/seeded/" + sid
